@@ -443,6 +443,24 @@ func (m *modAnalysis) callbackSites(args []ssa.Value, addOrigins func(ssa.Value,
 	for _, a := range args {
 		switch t := types.Unalias(a.Type()).Underlying().(type) {
 		case *types.Interface:
+			if mi, ok := a.(*ssa.MakeInterface); ok {
+				// the dynamic type is known: only its methods can be called back, on this very value
+				mset := m.P.Prog.MethodSets.MethodSet(mi.X.Type())
+				for i := 0; i < t.NumMethods(); i++ {
+					sel := mset.Lookup(t.Method(i).Pkg(), t.Method(i).Name())
+					if sel == nil {
+						continue
+					}
+					if fn := m.P.Prog.MethodValue(sel); fn != nil && fn.Blocks != nil {
+						cargs := make([]ssa.Value, len(fn.Params))
+						if len(cargs) > 0 && types.Identical(fn.Params[0].Type(), mi.X.Type()) {
+							cargs[0] = mi.X
+						}
+						addCallee(fn, cargs, nil)
+					}
+				}
+				continue
+			}
 			for i := 0; i < t.NumMethods(); i++ {
 				for _, impl := range m.impls[t.Method(i).Name()] {
 					if types.Implements(recvType(impl), t) {
